@@ -30,9 +30,9 @@ from . import c06 as c06e
 from .. import common
 from ..schedlib import model_request, run_impl
 
-MODULES = ["Sched", "SchedLemmas", "Connect", "ConnectLemmas", "Output", "OutputLemmas"]
+MODULES = ["Sched", "SchedLemmas", "Connect", "ConnectLemmas", "Output", "OutputLemmas", "Props.C02", "Props.C05Run"]
 GEN_OBLIGATIONS = sc.GEN_OBLIGATIONS
-THEOREM_DEPS = []
+THEOREM_DEPS = ["C05Run"]
 
 SIG_DOWHILE = "end-not-after-start-tie"
 KINDS = ["scale", "lin", "step", "next", "prev", "avg", "sum", "dfix", "dpull"]  # no push-time-dependent adapter
@@ -199,20 +199,31 @@ def check_sched(ctx, spec, res, k, do_model=True):
             break
     if failed or not do_model:
         return
-    # correspondence with the Lean run loop, per listing order
-    reqs, orders = [], []
+    # correspondence with the Lean run loop under the same listing (`runLoopOrd`: indices as in the spec, the
+    # listing as a parameter), and with `runLoop` on the re-indexed composition for the first variant
+    base = dict(spec)
+    base["order"] = list(range(len(spec["comps"])))
+    breq, _ = model_request(base)
+    reqs = []
     for s, _impl in runs:
-        r, o = model_request(s)
+        r = dict(breq)
+        r["op"] = "sched_run_ord"
+        r["listing"] = s["order"]
         reqs.append(r)
-        orders.append(o)
-    models = common.lean_batch(reqs)
+    r0, o0 = model_request(runs[0][0])
+    models = common.lean_batch(reqs + [r0])
+    ident = list(range(len(spec["comps"])))
     finals = []
-    for (s, impl), m, o in zip(runs, models, orders):
-        d = correspond_outcome(s, impl, m, o)
+    for (s, impl), m in zip(runs, models):
+        d = correspond_outcome(s, impl, m, ident)
         if d:
             res.diverge("sched/" + d["what"], s, d, None)
             return
-        finals.append((m["end"], sorted((o[i], t) for i, t in enumerate(m["final"]))))
+        finals.append((m["end"], m["final"]))
+    d = correspond_outcome(runs[0][0], runs[0][1], models[-1], o0)
+    if d:
+        res.diverge("sched/reindexed " + d["what"], runs[0][0], d, None)
+        return
     if any(f != finals[0] for f in finals[1:]) and not dowhile_tie(spec):
         res.diverge("model/order-dependence", case, None, finals)
 
